@@ -35,15 +35,16 @@ Cyclic == \E m \in mods : m \in Reach(att[m] \cap mods, Cardinality(Names))
 Dangling == \E e \in Edges : e[2] \notin mods
 Healthy == ~Cyclic /\ ~Dangling /\ wrong = {} /\ \A m \in mods : fail[m] = "none"
 
-Init == /\ mods \in (SUBSET Names) \ {{}}
-        /\ att \in [mods -> SUBSET (Names \cup {Missing})]
-        /\ wrong \in SUBSET {e \in mods \X mods : e[2] \in att[e[1]]}
-        /\ fail \in [mods -> FailKinds]
-        /\ polls \in SUBSET mods /\ writes \in SUBSET mods      \* an unpolled module with configured values still gets a thread for writing them
-        /\ host \in [mods -> mods] /\ (\A m \in mods : host[m] = m \/ host[m] \in att[m])
-        /\ phase = [m \in mods |-> "absent"]
-        /\ written = {} /\ polled = {} /\ cbdone = {} /\ state = "starting"
-        /\ stopped = {} /\ joined = {} /\ shut = {}
+CfgInit == /\ mods \in (SUBSET Names) \ {{}}
+           /\ att \in [mods -> SUBSET (Names \cup {Missing})]
+           /\ wrong \in SUBSET {e \in mods \X mods : e[2] \in att[e[1]]}
+           /\ fail \in [mods -> FailKinds]
+           /\ polls \in SUBSET mods /\ writes \in SUBSET mods      \* an unpolled module with configured values still gets a thread for writing them
+           /\ host \in [mods -> mods] /\ (\A m \in mods : host[m] = m \/ host[m] \in att[m])
+RunInit == /\ phase = [m \in mods |-> "absent"]
+           /\ written = {} /\ polled = {} /\ cbdone = {} /\ state = "starting"
+           /\ stopped = {} /\ joined = {} /\ shut = {}
+Init == CfgInit /\ RunInit
 
 Step(m, from, to) == /\ state = "starting" /\ phase[m] = from /\ phase' = [phase EXCEPT ![m] = to]
 
